@@ -61,8 +61,25 @@ def path_provenance(m, q, call):
             and any(isinstance(t, ast.Name) and t.id == var for t in n.ast.targets)]
 
     def prefix_of(e, depth):
-        """constant leading path component, looking through plain copies of other locals (all their definitions must agree)"""
+        """constant leading path component, looking through plain copies of other locals (all their definitions must agree) and
+        through same-class helper methods all of whose return values have one constant prefix"""
         p = _const_prefix(e)
+        if p is None and depth <= 3 and isinstance(e, ast.Call) and (pyfront.call_name(e) or "").startswith("self.") and "." in q:
+            h = m.functions.get("%s.%s" % (q.split(".")[0], pyfront.call_name(e)[5:]))
+            if h is not None:
+                hg_defs = {}
+                rets = [x.value for x in pyfront.walk_no_nested(h) if isinstance(x, ast.Return) and x.value is not None]
+
+                def hprefix(v, d=0):
+                    pp = _const_prefix(v)
+                    if pp is not None or d > 3 or not isinstance(v, ast.Name):
+                        return pp
+                    ds_ = [a.value for a in pyfront.walk_no_nested(h) if isinstance(a, ast.Assign) and any(
+                        isinstance(t, ast.Name) and t.id == v.id for t in a.targets)]
+                    ps_ = {hprefix(x, d + 1) for x in ds_}
+                    return list(ps_)[0] if len(ps_) == 1 else None
+                ps = {hprefix(v) for v in rets}
+                return list(ps)[0] if len(ps) == 1 and rets else None
         if p is not None or depth > 3 or not isinstance(e, ast.Name):
             return p
         ds = [n for n in g.nodes if n.kind == "stmt" and isinstance(n.ast, ast.Assign)
@@ -70,6 +87,19 @@ def path_provenance(m, q, call):
         ps = {prefix_of(d.ast.value, depth + 1) for d in ds}
         return list(ps)[0] if len(ps) == 1 else None
     out = []
+    if not flags:
+        # a Boolean attribute computed once (self.X = <test>) and then branched on: the two truth values partition the paths
+        attrs = {}
+        for n in g.nodes:
+            if n.kind == "stmt" and isinstance(n.ast, ast.Assign) and len(n.ast.targets) == 1:
+                t = n.ast.targets[0]
+                if isinstance(t, ast.Attribute) and isinstance(t.value, ast.Name) and t.value.id == "self":
+                    attrs.setdefault(t.attr, []).append(n)
+        tested = {pyfront.dotted(n.ast)[5:] for n in g.nodes if n.kind == "cond" and isinstance(n.ast, ast.Attribute)
+                  and (pyfront.dotted(n.ast) or "").startswith("self.")}
+        cands = [a for a in tested if len(attrs.get(a, [])) == 1]
+        if len(cands) == 1:
+            flags = {cands[0]: [(attrs[cands[0]][0], True), (attrs[cands[0]][0], False)]}
     if len(flags) == 1:
         attr, sets = list(flags.items())[0]
         for setter, val in sets:
